@@ -36,7 +36,7 @@ theorem mdNorm_cons (g : Ns × List (String × MdVal)) (md : Md) :
     mdNorm (g :: md) =
       (if g.2.isEmpty then [] else [(g.1, g.2.map fun e => (e.1, mdValNorm e.2))]) ++ mdNorm md := by
   unfold mdNorm
-  by_cases h : g.2.isEmpty <;> simp [List.filter_cons, h]
+  by_cases h : g.2.isEmpty <;> simp [h]
 
 /-- reading the entries of one namespace back, into a dict that does not have it yet -/
 theorem mdIns_group (ns : Ns) (es : List (String × MdVal)) (acc : Md)
@@ -103,7 +103,7 @@ theorem mdToProto_mdNorm (md : Md) : mdToProto (mdNorm md) = mdToProto md := by
     rw [mdNorm_cons, mdToProto_cons]
     by_cases h : g.2.isEmpty
     · have : g.2 = [] := by cases hg : g.2 <;> simp_all
-      simp [h, ih, this]
+      simp [ih, this]
     · simp only [h, Bool.false_eq_true, if_false, List.singleton_append, mdToProto_cons, ih]
       simp [List.map_map, Function.comp_def, assignValue_norm]
 
@@ -201,7 +201,7 @@ theorem deltaFold_trials (ts acc : List (Int × Md)) (s : Md)
         intro a ha b hb'
         exact this.2.2 a ha b (by simp [hb'])
       rw [ih acc hk' (fun x hx => hw x (by simp [hx]))]
-      simp [List.filter_cons, ← hmd]
+      simp [← hmd]
     · have := foldl_modifyD_fresh (κ := Int) (σ := Md) t.1 (fun m kv => mdIns kv m) [] acc (mdToProto t.2) hfresh he
       rw [this, hmd]
       have hne : (mdNorm t.2).isEmpty = false := by
@@ -213,7 +213,7 @@ theorem deltaFold_trials (ts acc : List (Int × Md)) (s : Md)
       have hk' : ((acc ++ [(t.1, mdNorm t.2)] ++ rest).map Prod.fst).Nodup := by
         simpa [List.map_append] using hk
       rw [ih _ hk' (fun x hx => hw x (by simp [hx]))]
-      simp [List.filter_cons, hne, List.append_assoc]
+      simp [hne, List.append_assoc]
 
 theorem deltaFromProto_deltaToProto (d : Delta) (h : DeltaWF d) :
     deltaFromProto (deltaToProto d) = deltaNorm d := by
